@@ -12,8 +12,14 @@ use std::mem;
 use std::net::IpAddr;
 use std::num::NonZeroUsize;
 use std::sync::Arc;
+#[cfg(pgcat_verif)]
+use simcore::clock::SystemTime;
+#[cfg(not(pgcat_verif))]
 use std::time::SystemTime;
 use tokio::io::{AsyncRead, AsyncReadExt, AsyncWrite, BufStream};
+#[cfg(pgcat_verif)]
+use simcore::net::TcpStream;
+#[cfg(not(pgcat_verif))]
 use tokio::net::TcpStream;
 use tokio_rustls::rustls::{OwnedTrustAnchor, RootCertStore};
 use tokio_rustls::{client::TlsStream, TlsConnector};
@@ -882,6 +888,8 @@ impl Server {
         self.mirror_send(messages);
         self.stats().data_sent(messages.len());
 
+        #[cfg(pgcat_verif)]
+        simcore::yield_point("server.send.before_write").await;
         match write_all_flush(&mut self.stream, messages).await {
             Ok(_) => {
                 // Successfully sent to server
